@@ -113,11 +113,39 @@ def run(res, tier, broken):
     want = ["wlptr:rm:head:tail", "wlptr:rm:head:nT", "wlptr:rm:head:nU", "wlptr:rm:pT:tail", "wlptr:rm:pU:tail", "wlptr:rm:pT:nT",
             "wlptr:rm:pT:nU", "wlptr:rm:pU:nT", "wlptr:rm:pU:nU"]
     res.add_cov(wlptr_removal_cases_seen=[w for w in want if w in tr1], wlptr_removal_cases_missing=[w for w in want if w not in tr1])
+    native_timed(res, tier, broken)
+
+
+def native_timed(res, tier, broken):
+    """real clock / futex / pthread condition variables (the controlled scheduler virtualises them): harness/nat_timed.c"""
+    import subprocess
+    exe = C.cc_harness("nat_timed", ["nat_timed.c"], "plain")
+    n = 0
+    for mode in ("pools", "cond"):
+        for _ in range(1 if tier == "quick" and not broken else 3):
+            n += 1
+            try:
+                p = subprocess.run([exe, mode], stdout=subprocess.PIPE, stderr=subprocess.STDOUT, timeout=120)
+                rc, out = p.returncode, p.stdout.decode("utf-8", "replace")
+            except subprocess.TimeoutExpired:
+                rc, out = -999, "timeout"
+            if rc != 0:
+                res.violation("timed wait against the real OS primitives (%s): %s" % (mode, out.strip().split("\n")[-1][:400] or "exit %s" % rc),
+                              {"native": "nat_timed", "argv": [mode], "exit": rc, "output": out[-1500:]})
+                break
+    res.add_cov(native_timed_runs=n)
 
 
 def replay(res, path):
     import json
     rep = json.load(open(path))
+    if rep.get("native") == "nat_timed":
+        import subprocess
+        exe = C.cc_harness("nat_timed", ["nat_timed.c"], "plain")
+        p = subprocess.run([exe] + rep.get("argv", []), stdout=subprocess.PIPE, stderr=subprocess.STDOUT, timeout=120)
+        print(p.stdout.decode("utf-8", "replace")[-1500:])
+        print("exit", p.returncode)
+        return 1 if p.returncode != 0 else 0
     if rep.get("scenario") == "sc_popwait":
         return vs.replay("sc_popwait", ["sc_popwait.c"], path, validate_popwait)
     return vs.replay("sc_sync", ["sc_sync.c"], path, validate)
